@@ -49,12 +49,14 @@ PROP = {'rule': 'rapid state machine over GroupQuotaManager (unit core: the plug
             'tests': [{'run': 'TestVerifC01CoreHistory', 'quick': 500, 'quick_shards': 2, 'thorough': 3000, 'steps': 40},
                       {'run': 'TestVerifC01Concurrent', 'quick': 150, 'thorough': 400, 'shards': 6, 'race': True},
                       {'run': 'TestVerifC01CoreParked', 'quick': 400, 'thorough': 2000, 'shards': 6, 'steps': 30},
+                      {'run': 'TestVerifC01CoreMigrateRace', 'quick': 300, 'thorough': 2000, 'shards': 6, 'steps': 30},
                       {'run': 'TestVerifC01ConcurrentBurst', 'quick': 150, 'quick_shards': 2, 'thorough': 600, 'shards': 6}]},
            {'name': 'plugin',
             'pkg': 'pkg/scheduler/plugins/elasticquota',
             'files': ['C01/c01_model_plugin_test.go', 'C01/c01_plugin_test.go'],
             'tests': [{'run': 'TestVerifC01PluginHistory', 'quick': 300, 'thorough': 1500, 'shards': 6, 'steps': 40},
-                      {'run': 'TestVerifC01PluginParked', 'quick': 200, 'thorough': 1000, 'shards': 4, 'steps': 30}]}],
+                      {'run': 'TestVerifC01PluginParked', 'quick': 200, 'thorough': 1000, 'shards': 4, 'steps': 30},
+                      {'run': 'TestVerifC01PluginMigrateRace', 'quick': 200, 'thorough': 1000, 'shards': 4, 'steps': 30}]}],
  'manifest': {'technique': 'property-based testing (rapid): model-based state machine over quota/pod/node event histories with a from-scratch '
                            'reference recomputation and a fresh-instance differential; concurrent variant under the race detector',
               'text': 'Generated-input search: histories of quota create/update/re-parent/delete, pod add/update/move/delete, '
